@@ -311,7 +311,7 @@ def run(ctx):
     ctx.extra['entries_without_template'] = missing
     if missing:
         ctx.harness_errors.append("':SymPy: supported' entries without a template: %s" % missing)
-    reps = 4 if ctx.tier == 'quick' else 60
+    reps = 4 if ctx.tier == 'quick' else 240
     i = 0
     for ti, (tname, form, kinds, fn) in enumerate(T):
         consts = structural_constants(np.random.default_rng(ti), fn, kinds)
